@@ -20,6 +20,31 @@ def tolCmp (k : Nat) : Option Int → Option Int → Bool
 theorem tolCmp_refl (k : Nat) : ∀ a, tolCmp k a a = true := by
   intro a; cases a <;> simp [tolCmp]
 
+/-- `cmp.FloatValueApprox(fraction, margin)` on integers, `fraction = num / den` (`den > 0`):
+`|x - y| ≤ max(margin, fraction * min(|x|, |y|))`, both sides multiplied by `den`.  (The distance is between the VALUES,
+the relative margin scales with the smaller MAGNITUDE.) -/
+def approxInt (num den margin : Nat) (x y : Int) : Bool :=
+  decide (den * (x - y).natAbs ≤ max (den * margin) (num * min x.natAbs y.natAbs))
+
+/-- the same comparer as `cmp.Equal` applies it to a proto3 scalar field: `equalMessage` first compares which fields
+are populated, and a field at zero is not -/
+def approxField (num den margin : Nat) (x y : Int) : Bool :=
+  if x = 0 ∨ y = 0 then x == y else approxInt num den margin x y
+
+theorem approxInt_refl (num den margin : Nat) (x : Int) : approxInt num den margin x x = true := by
+  simp [approxInt]
+
+theorem approxInt_symm (num den margin : Nat) (x y : Int) : approxInt num den margin x y = approxInt num den margin y x := by
+  have h1 : (x - y).natAbs = (y - x).natAbs := by omega
+  simp only [approxInt, h1, Nat.min_comm]
+
+theorem tolCmp_eq_approxInt (k : Nat) (x y : Int) : tolCmp k (some x) (some y) = approxInt 0 1 k x y := by
+  simp [tolCmp, approxInt]
+
+theorem approxInt_neg (margin : Nat) (x : Int) : approxInt 0 1 margin x (-x) = true ↔ 2 * x.natAbs ≤ margin := by
+  simp only [approxInt, decide_eq_true_eq]
+  omega
+
 variable {M : Type}
 
 /-- the variant loop: compare each change with the previous VALUE of the resource -/
@@ -53,6 +78,24 @@ theorem dedupPrev_fold (cmp : Option M → Option M → Bool) (hrefl : ∀ a, cm
       · simp only [applyEv, setAt, hej, if_true]
       · simp only [applyEv, setAt, hej, if_true]
         exact hrefl _
+
+/-- no value of the list is equivalent to the one before it (`p` before the first) -/
+def noAdjEquiv (cmp : Option M → Option M → Bool) : Option M → List (Option M) → Prop
+  | _, [] => True
+  | p, x :: xs => cmp p x = false ∧ noAdjEquiv cmp x xs
+
+theorem dedupVal_noAdjEquiv (cmp : Option M → Option M → Bool) (L : List (Event M)) :
+    ∀ last : Option M, noAdjEquiv cmp last ((dedupVal cmp last L).map (·.new)) := by
+  induction L with
+  | nil => intro last; simp [dedupVal, noAdjEquiv]
+  | cons e L ih =>
+    intro last
+    simp only [dedupVal]
+    cases hc : cmp last e.new with
+    | true => simpa using ih last
+    | false =>
+      simp only [Bool.false_eq_true, if_false, List.map_cons, noAdjEquiv]
+      exact ⟨hc, ih e.new⟩
 
 /-- the ramp `x+1, …, x+n` as a linked stream of changes of id 0 -/
 def rampEvs (x : Int) : Nat → List (Event Int)
